@@ -17,6 +17,7 @@ Tie to the code:
 import concurrent.futures
 import importlib
 import os
+import re
 import sys
 
 import common
@@ -63,7 +64,25 @@ CLASSES = {
 
 def translators(ctx):
     import c12_check_int
-    return [lambda: c12_check_int.run(common)]
+    import c12_struct_flags
+    return [lambda: c12_check_int.run(common), lambda: c12_struct_flags.run(common)]
+
+
+def table_flags(cpath):
+    """{struct/union table name: numeric `flags`} parsed back from the generated C file, with the
+    `_CFFI_F_*` values of the working tree."""
+    import c12_struct_flags
+    fvals, _ = c12_struct_flags.flag_values(common.REPO)
+    src = open(cpath).read()
+    m = re.search(r"_cffi_struct_unions\[\] = \{(.*?)\n\};", src, re.S)
+    out = {}
+    if m:
+        for nm, flags in re.findall(r'\{ "([^"]+)", \d+, ([A-Za-z_|0-9]+),', m.group(1)):
+            v = 0
+            for part in flags.split("|"):
+                v |= 0 if part == "0" else fvals[part]
+            out[nm] = v
+    return out
 
 
 # ---------------------------------------------------------------------------
@@ -91,8 +110,8 @@ def is_error(obs):
 ERROR_FAMILY = ("ffi.error", "VerificationError", "TypeError")
 
 
-def struct_line(unit, s, facts, check):
-    """Protocol line for the Lean model of this struct's realisation, or None if not modellable."""
+def struct_line(unit, s, facts, flags):
+    """Protocol line for the Lean model of this struct's realisation (flags: from the generated table)."""
     flds = []
     for f in s["fields"]:
         csize, calign = G.field_size_align(unit, f, facts)
@@ -100,8 +119,7 @@ def struct_line(unit, s, facts, check):
             csize = facts["fsize:%s.%s" % (s["name"], f["name"])]      # `T a[...]`: length from the compiler
         flds.append("%d:%d:%d:%d" % (csize, calign, facts["offsetof:%s.%s" % (s["name"], f["name"])],
                                      facts["fsize:%s.%s" % (s["name"], f["name"])]))
-    return "struct %d %d 0 %d %d %s" % (1 if check else 0, 1 if s["union"] else 0, facts["sizeof:" + s["name"]],
-                                        facts["alignof:" + s["name"]], " ".join(flds))
+    return "structf %d %d %d %s" % (flags, facts["sizeof:" + s["name"]], facts["alignof:" + s["name"]], " ".join(flds))
 
 
 def run_unit(ctx, rng, uid, oracle_only=False, kinds=None):
@@ -126,6 +144,8 @@ def run_unit(ctx, rng, uid, oracle_only=False, kinds=None):
         # --- harness self-check: the Python layout oracle agrees with gcc on the unmutated declarations
         if vname == "base":
             for s in orig["structs"]:
+                if s.get("special"):
+                    continue
                 offs, sizes, total, al = G.natural_layout(orig, s, facts)
                 if (total, al) != (facts["sizeof:" + s["name"]], facts["alignof:" + s["name"]]) or any(
                         offs[f["name"]] != facts["offsetof:%s.%s" % (s["name"], f["name"])] for f in s["fields"]):
@@ -176,7 +196,7 @@ def run_unit(ctx, rng, uid, oracle_only=False, kinds=None):
                     continue
                 observed = "compiler-value" if obs == facts["const:" + mut_const] else (
                     "cdef-value" if obs == new else "other")
-                _fail(ctx, dict(case, expect="error", observed=observed, value=obs),
+                ctx.fail(dict(case, expect="error", observed=observed, value=obs),
                       "cdef says %s = %d, the C source %d; using it gave %r instead of raising" % (mut_const, new, old, obs))
         # --- every other item must work and show the compiler's facts
         for key, pr, want in G.probes_for(rng, unit, orig, facts, skip_structs=tainted, skip_consts=skip_consts,
@@ -193,10 +213,19 @@ def run_unit(ctx, rng, uid, oracle_only=False, kinds=None):
         if oracle_only:
             continue
         # --- the Lean model on the same structs and constants
+        tflags = table_flags(os.path.join(ctx.scratch, modname + ".c"))
         for s in unit["structs"]:
-            if s["name"] in tainted and s["name"] != mut_struct:
+            if (s["name"] in tainted and s["name"] != mut_struct) or s.get("special"):
                 continue
-            line = struct_line(unit, s, facts, check=not s["partial"])
+            import c12_struct_flags
+            fv = c12_struct_flags.flag_values(common.REPO)[0]
+            want_flags = ((0 if s["partial"] else fv["_CFFI_F_CHECK_FIELDS"]) | (fv["_CFFI_F_UNION"] if s["union"] else 0) |
+                          (fv["_CFFI_F_PACKED"] if s.get("cdef_packed", s.get("packed")) else 0))
+            ctx.count("table-flags:%d" % tflags[s["name"]])
+            if tflags[s["name"]] != want_flags:
+                ctx.disagree({"variant": vname, "struct": s["name"]}, tflags[s["name"]], want_flags,
+                             "flags emitted by the recompiler vs declared (CHECK_FIELDS/UNION/PACKED)")
+            line = struct_line(unit, s, facts, tflags[s["name"]])
             obs = G.probe(ffi, lib, {"k": "layout", "tag": G.struct_tag(s), "fields": [f["name"] for f in s["fields"]]})
             lines.append(line)
             expect.append(({"variant": vname, "struct": s["name"], "line": line}, "struct", obs))
@@ -226,17 +255,6 @@ def run_unit(ctx, rng, uid, oracle_only=False, kinds=None):
             ctx.count("model:%s:%s" % (what, model.split()[0]))
             if impl != model:
                 ctx.disagree(case, impl, model, "%s realisation vs Lean model" % what)
-
-
-def _fail(ctx, case, detail):
-    """ctx.fail, except that the finding of this builder is not reported as a violation while the lead has
-    not yet copied its line into KNOWN_FINDINGS.jsonl (see the final report); it is counted and logged."""
-    if CLASSES[FINDING](case) and not any(f["class"] == FINDING for f in ctx.open_findings):
-        ctx.count("finding-not-yet-registered:" + FINDING)
-        if ctx.distribution["finding-not-yet-registered:" + FINDING] == 1:
-            common.log("KNOWN (not yet in KNOWN_FINDINGS.jsonl) %s: %s" % (FINDING, detail))
-        return
-    ctx.fail(case, detail)
 
 
 def _const_decl(unit, name):
@@ -271,7 +289,8 @@ def replay(ctx, obj):
     m = _rebuild(ctx, case, "_c12_replay")
     pr = case["probe"]
     if pr == "sizeof-again":
-        tag = [l for l in case["cdef"].split("\n") if case["item"].split(":")[1] + " {" in l][0].split("{")[0].strip()
+        text = case["cdef"] if isinstance(case["cdef"], str) else "".join(c[0] for c in case["cdef"])
+        tag = [l for l in text.split("\n") if case["item"].split(":")[1] + " {" in l][0].split("{")[0].strip()
         G.probe(m.ffi, m.lib, {"k": "sizeof", "tag": tag})
         obs = G.probe(m.ffi, m.lib, {"k": "sizeof", "tag": tag})
     else:
